@@ -1,7 +1,7 @@
 /-
 Driver for stream `sync` (C20 b): the stage machine of statesync.Module and the unknown-node pool of the
 MPT-based mode, run over the node table of the source trie.
-  cfg <P> <B0> <rootId> <n> <mtb>    -> ok   (B0 must be windowBase P mtb)
+  cfg <P> <B0> <rootId> <n> <mtb> <top> <interval> -> ok   (B0 = windowBase P mtb, P = syncPointOf top interval)
   node <id> <L|N> <child>:<nibbles-hex> …  -> ok            (children in traversal order)
   init | remod | restart             -> ok|panic stage=… pool=…
   headers <a> <b> [t<k>]             -> ok|err stage=… pool=…   (t<k>: the header of index k is tampered)
@@ -320,14 +320,15 @@ def step (d : DS) (ws : List String) : DS × String :=
   | none =>
   match ws with
   | ["case", k] => ({}, s!"case {k}")
-  | ["cfg", p, b0, root, n, mtb] =>
-    match p.toNat?, b0.toNat?, root.toNat?, n.toNat?, mtb.toNat? with
-    | some p, some b0, some root, some n, some mtb =>
-      -- the height below the window is the model's windowBase (tied to getLatestSavedBlock by translation)
-      if b0 != windowBase p mtb then (d, "bad-cfg") else
+  | ["cfg", p, b0, root, n, mtb, top, interval] =>
+    match p.toNat?, b0.toNat?, root.toNat?, n.toNat?, mtb.toNat?, top.toNat?, interval.toNat? with
+    | some p, some b0, some root, some n, some mtb, some top, some interval =>
+      -- the height below the window is the model's windowBase (tied to getLatestSavedBlock by translation), the
+      -- sync point the model's syncPointOf (tied to Init by translation)
+      if b0 != windowBase p mtb || syncPointOf top interval != some p then (d, "bad-cfg") else
       let d1 := { d with p := p, b0 := b0, root := root, table := Array.replicate n none, bs := BS.init root, bil := BS.init root }
       ({ d1 with ss := SS.init (d1.cfg 0) }, "ok")
-    | _, _, _, _, _ => (d, "bad-op")
+    | _, _, _, _, _, _, _ => (d, "bad-op")
   | "node" :: id :: kind :: kids =>
     match id.toNat? with
     | some id =>
